@@ -50,6 +50,7 @@ func opCoerce(req *sb.Req) *sb.Resp {
 			it.S = stick.CoerceString(gv)
 			it.NS = FmtNum(stick.CoerceNumber(gv))
 			it.B = stick.CoerceBool(gv)
+			it.Msg = FmtNum(stick.CoerceNumber(stick.CoerceString(gv)))
 			if sv, ok := gv.(stick.SafeValue); ok {
 				ts := sv.SafeFor()
 				it.L = ts
